@@ -237,12 +237,14 @@ def run(ctx: Ctx) -> None:
     ri = inst.methods.get("_run_instance")
     if ri is None:
         raise AnalysisError("EmulatorInstance._run_instance vanished")
-    seed_ok = any(k.arg == "random_seed" and ast.unparse(k.value) in ("self.seed", "self._options._seed")
-                  for c in calls_in(ri.node) if call_name(c) == "run_shots" for k in c.keywords)
-    sim_ok = any(k.arg == "simulator" and ast.unparse(k.value) in ("self.simulator", "self._options._simulator")
-                 for c in calls_in(ri.node) if call_name(c) == "run_shots" for k in c.keywords)
-    ctx.check(seed_ok and sim_ok, "R-C28.3", f"{ri.qualname}#passes-configured-seed-and-simulator", ri.where, {"random_seed": seed_ok, "simulator": sim_ok},
-              "running does not use the configuration's own seed/simulator")
+    if not c28_derive.run_plumbing(ctx, inst):
+        # fallback (not interpretable): the run_shots call names `self.seed` / `self.simulator` literally
+        seed_ok = any(k.arg == "random_seed" and ast.unparse(k.value) in ("self.seed", "self._options._seed")
+                      for c in calls_in(ri.node) if call_name(c) == "run_shots" for k in c.keywords)
+        sim_ok = any(k.arg == "simulator" and ast.unparse(k.value) in ("self.simulator", "self._options._simulator")
+                     for c in calls_in(ri.node) if call_name(c) == "run_shots" for k in c.keywords)
+        ctx.check(seed_ok and sim_ok, "R-C28.3", f"{ri.qualname}#passes-configured-seed-and-simulator", ri.where, {"random_seed": seed_ok, "simulator": sim_ok},
+                  "running does not use the configuration's own seed/simulator")
     sp = inst.methods.get("seed")
     ok = sp is not None and "property" in sp.decorator_names() and any(isinstance(r, ast.Return) and ast.unparse(r.value) == "self._options._seed" for r in walk_no_nested(sp.node))
     ctx.check(ok, "R-C28.3", f"{inst.qualname}.seed#reads-own-option", sp.where if sp else inst.where, {}, "the seed accessor does not return this configuration's seed")
